@@ -12,7 +12,7 @@ Deductive parts (real functions, all branches):
                               / tidal scale, call order
 Bounded (labelled, never counted as proved): the OOP assembly of whole worlds and the slice arrays, run natively on shipped + random configs.
 """
-import ast, itertools
+import ast, itertools, os
 import sympy as sp
 from tpv.kit import *
 from tpv import terms as T
@@ -36,6 +36,7 @@ def build(tier="quick", seed=0):
     physical_slices(b)
     layer_mass_below(b)
     world_assembly(b)
+    layer_call_site(b)
     scaling(b)
     naming_and_frame(b)
     bounded_assembly(b, tier, seed)
@@ -321,6 +322,78 @@ def world_assembly(b):
             order = [c_[0] for c_ in calls]
             ground(b, tag + "::order", mfn.key, "layers are re-initialised before the world's geometry is set, and the pressure is set after it",
                    order.index("set_geometry") > max(i_ for i_, c_ in enumerate(order) if c_ == "layer.reinit") and "set_static_pressure" in order and order.index("set_static_pressure") > order.index("set_geometry"), detail=str(order))
+
+
+def layer_call_site(b):
+    """LayerBase.reinit: the call site of find_geometry_from_config (argument binding by the callee's REAL parameter names) and of set_geometry, executed
+    from the real source for every position in a 3-layer stack; layer_below is the class's real property.  Contiguity of the assembled world rests on
+    it: the radius handed in as layer_below_radius must be the radius of the layer directly beneath (None for the bottom layer)."""
+    import ast as _ast
+    base = ClassModel("PhysicalObjSpherical", FP)
+    cls = ClassModel("LayerBase", FL, bases=[base])
+    c, node = cls.lookup("methods", "reinit")
+    if node is None:
+        b.subset_exits.append(f"{FL}::LayerBase.reinit: method not found")
+        return
+    mfn = MethodFn(c, node)
+    b.functions[mfn.key] = mfn.info()
+    try:
+        from tpv import REPO as _REPO
+        src = open(os.path.join(_REPO, FH)).read()
+        fdef = [n_ for n_ in _ast.parse(src).body if isinstance(n_, _ast.FunctionDef) and n_.name == "find_geometry_from_config"][0]
+        params = [a_.arg for a_ in fdef.args.args]
+    except Exception as e:
+        b.subset_exits.append(f"{FH}::find_geometry_from_config: signature not readable ({e})")
+        return
+    n = 3
+    for idx in range(n):
+        tag = f"{mfn.key}::call_site[layer {idx} of {n}]"
+        calls = []
+        stubs = [Obj(None, name=f"layer{k}", radius=R(f"layer_radius_{k}"), thickness=R(f"layer_thickness_{k}"), radius_inner=R(f"layer_radius_inner_{k}")) for k in range(n)]
+        world = Obj(None, name="world", radius=R("world_radius"), mass=R("world_mass"), num_layers=sp.Integer(n))
+        cfg = {"is_tidally_active": True, "use_tidal_vol_frac": True, "use_surface_gravity": False, "use_bulk_density": True}
+        ret = {x_: R(f"fg_{x_}") for x_ in ("radius", "thickness", "volume", "mass", "density")}
+
+        def fg(ex, node_, *a, **kw):
+            calls.append(("find_geometry_from_config", a, dict(kw)))
+            return tuple(ret[x_] for x_ in ("radius", "thickness", "volume", "mass", "density"))
+
+        def sg(ex, node_, *a, **kw):
+            calls.append(("set_geometry", a, dict(kw)))
+
+        def sup(self_, *a, **kw):
+            calls.append(("super.reinit", a, dict(kw)))
+        o = Obj(cls, config=cfg, _config=cfg, layer_index=sp.Integer(idx), _layer_index=sp.Integer(idx), is_top_layer=(idx == n - 1), _is_top_layer=(idx == n - 1),
+                world=world, _world=world, set_geometry=sg, name=f"layer{idx}")
+        layers = list(stubs)
+        layers[idx] = o
+        world._attrs["layers"] = tuple(layers)
+        ex = Exec(mfn, contracts={"=super.reinit": Contract("=super.reinit", None, None, result=sup)},
+                  globals_env=dict(find_geometry_from_config=fg, ParameterMissingError="ParameterMissingError"), opts=dict(definedness=False))
+        try:
+            paths = ex.run(dict(self=o, initial_init=True, initialize_geometry=True))
+        except SymExError as e:
+            b.subset_exits.append(f"{mfn.key} [layer {idx}]: {e}")
+            return
+        fgc = [c_ for c_ in calls if c_[0] == "find_geometry_from_config"]
+        sgc = [c_ for c_ in calls if c_[0] == "set_geometry"]
+        if len(paths) != 1 or paths[0].outcome != "return" or len(fgc) != 1 or len(sgc) != 1:
+            ground(b, tag + "::calls", mfn.key, "one returning path with one call of find_geometry_from_config and one of set_geometry", False, detail=str([p_.outcome for p_ in paths]) + str([c_[0] for c_ in calls]))
+            continue
+        bound = dict(zip(params, fgc[0][1]))
+        bound.update(fgc[0][2])
+        want = dict(layer_index=sp.Integer(idx), is_top_layer=(idx == n - 1), world_radius=world._attrs["radius"], world_mass=world._attrs["mass"],
+                    layer_below_radius=(None if idx == 0 else stubs[idx - 1]._attrs["radius"]))
+        for k_, w_ in want.items():
+            g_ = bound.get(k_, None if k_ == "layer_below_radius" else "<not passed>")
+            ok = (g_ is None and w_ is None) or (g_ is not None and w_ is not None and not isinstance(g_, str) and (g_ == w_ or sp.sympify(g_) == sp.sympify(w_)))
+            ground(b, tag + f"::binds[{k_}]", mfn.key, f"requires of find_geometry_from_config at this site: {k_} is this layer's own / the world's / the radius of the layer directly beneath", ok, detail=f"passed {g_}, expected {w_}")
+        ground(b, tag + "::binds[config]", mfn.key, "the layer's own configuration is the one parsed", bound.get("config") is cfg, detail=str(type(bound.get("config"))))
+        sk = dict(zip(("radius", "mass", "thickness"), sgc[0][1]))
+        sk.update(sgc[0][2])
+        for k_ in ("radius", "mass", "thickness"):
+            ground(b, tag + f"::stores[{k_}]", mfn.key, f"set_geometry receives the {k_} that find_geometry_from_config returned", sk.get(k_) == ret[k_], detail=f"passed {sk.get(k_)}")
+        ground(b, tag + "::builds_slices", mfn.key, "the layer's state geometry is updated and its slices are built", sk.get("update_state_geometry", True) is True and sk.get("build_slices", True) is True, detail=str(sk))
 
 
 def scaling(b):
